@@ -56,25 +56,33 @@ func init() {
 // ---- server-side option seams (the Option interfaces are open: any type with the Apply method is an option)
 
 type c10UDPSeam struct {
-	tick func(f func(now time.Time) bool)
-	mid  int32
+	tick    func(f func(now time.Time) bool)
+	mid     int32
+	poolCap uint32 // > 0: a recycling message pool of that capacity
+}
+
+func (o c10UDPSeam) pool() *pool.Pool {
+	if o.poolCap > 0 {
+		return pool.New(o.poolCap, 2048)
+	}
+	return pool.New(0, 0)
 }
 
 func (o c10UDPSeam) UDPServerApply(cfg *udpServer.Config) {
 	cfg.PeriodicRunner = o.tick
 	m := o.mid
 	cfg.GetMID = func() int32 { m++; return m & 0xffff }
-	cfg.MessagePool = pool.New(0, 0)
+	cfg.MessagePool = o.pool()
 }
 func (o c10UDPSeam) DTLSServerApply(cfg *dtlsServer.Config) {
 	cfg.PeriodicRunner = o.tick
 	m := o.mid
 	cfg.GetMID = func() int32 { m++; return m & 0xffff }
-	cfg.MessagePool = pool.New(0, 0)
+	cfg.MessagePool = o.pool()
 }
 func (o c10UDPSeam) TCPServerApply(cfg *tcpServer.Config) {
 	cfg.PeriodicRunner = o.tick
-	cfg.MessagePool = pool.New(0, 0)
+	cfg.MessagePool = o.pool()
 }
 
 // simulated stream / record listener
